@@ -94,8 +94,9 @@ def Iter.len : Iter → Len
   | .cycle cur [] => .fin cur.length
   | .cycle _ (_ :: _) => .inf
   | .chain a b => a.len.add b.len
-  | .mapc _ _ _ a => a.len
+  | .mapc _ _ _ _ a => a.len
   | .map2 _ a b => a.len.min b.len
+  | .dead _ => .fin 0
 
 def Iter.get : Iter → Nat → Option Term
   | .list _ xs, i => xs[i]?
@@ -103,11 +104,12 @@ def Iter.get : Iter → Nat → Option Term
   | .cycle cur all, i =>
     if i < cur.length then cur[i]? else all[(i - cur.length) % all.length]?
   | .chain a b, i => chainAt a.len a.get b.get i
-  | .mapc f pre post a, i => (a.get i).map fun x => .app f (pre ++ x :: post)
+  | .mapc _ f pre post a, i => (a.get i).map fun x => .app f (pre ++ x :: post)
   | .map2 f a b, i =>
     match a.get i, b.get i with
     | some x, some y => some (.app f [x, y])
     | _, _ => none
+  | .dead _, _ => none
 
 /-! ## Programs -/
 
@@ -138,7 +140,7 @@ def Py.sort : Py → Option Sort'
     | some .stream, some sp, some so =>
       if sp.arity == 2 && so != .ignored then some .stream else none
     | _, _, _ => none
-  | .meth _ s =>
+  | .meth _ _ s =>
     match s.sort with
     | some .stream => some .stream
     | _ => none
@@ -162,7 +164,7 @@ def Py.len : Py → Len
   | .stream2 a b => a.len.add b.len        -- two iterables chained; two scalars (each `inf`): endless
   | .un _ s => s.len
   | .bin _ s o => s.len.min o.len           -- the shortest iterable operand
-  | .meth _ s => s.len
+  | .meth _ _ s => s.len
   | .append s o => s.len.add o.len
 
 /-- the i-th element of the value of the expression -/
@@ -182,7 +184,7 @@ def Py.at : Py → Nat → Option Term
     match specLookup d, s.at i, o.at i with
     | some sp, some x, some y => some (.app sp.fn (if sp.reflected then [y, x] else [x, y]))
     | _, _, _ => none
-  | .meth l s, i => (s.at i).map fun x => .app l [x]
+  | .meth _ l s, i => (s.at i).map fun x => .app l [x]
   | .append s o, i =>
     chainAt s.len s.at o.at i
 
